@@ -292,11 +292,11 @@ RpcCheck ==
      ELSE LET b == Blk(Ev.h)  g == r.v IN
           Pick(<< <<g.h = b.h, <<"RpcBlock", "number">>>>,
                   <<g.bh = b.bh, <<"RpcBlock", "hash">>>>,
-                  <<g.gasUsed = BlockGasUsed(b), <<"RpcBlock", "gasUsed">>>>,
                   <<Len(g.txs) = BlockTxCount(b), <<"RpcBlock", "transaction-count">>>>,
                   <<Len(g.txs) # BlockTxCount(b) \/
                       (IF Ev.full THEN \A k \in 1..Len(g.txs) : Pick(TxEq(g.txs[k], BlockTxViews(b)[k])) = OK
-                                  ELSE g.txs = BlockTxHashes(b)), <<"RpcBlock", "transactions">>>> >>)
+                                  ELSE g.txs = BlockTxHashes(b)), <<"RpcBlock", "transactions">>>>,
+                  <<g.gasUsed = BlockGasUsed(b), <<"RpcBlock", "gasUsed">>>> >>)
   ELSE IF m = "txCount" THEN
      IF ~ValidH(Ev.h) THEN WantNothing(r, m)
      ELSE IF ~IsVal(r) THEN NeedVal(r, m)
